@@ -48,7 +48,7 @@ def r1(ctx):
         v = r.value
         if dotted(v) == data:
             conds = [t for t, pol, n in dominating_conditions(ctx, f, r) if pol]
-            ok = conds == [f"sum({key}) == 0"]
+            ok = set(conds) == {f"sum({key}) == 0", f"0 == sum({key})"}
             kinds.append("identity")
             ctx.ob("R1", "ABS", f, "return data", ok, f"identity shortcut taken under {conds}; required exactly `sum(key) == 0` (covers empty and all-zero keys)", r)
         elif isinstance(v, ast.Call) and dotted(v.func) in ("int.to_bytes",) or (isinstance(v, ast.Call) and isinstance(v.func, ast.Attribute) and v.func.attr == "to_bytes"):
@@ -178,7 +178,11 @@ def r4(ctx):
     pre = [(src(s.test), raise_class(s.body[0])) for s in f.node.body if isinstance(s, ast.If) and s.body and isinstance(s.body[0], ast.Raise)]
     loop = [s for s in f.node.body if isinstance(s, ast.While)]
     before = all(f.node.body.index(s) < f.node.body.index(loop[0]) for s in f.node.body if isinstance(s, ast.If) and s.body and isinstance(s.body[0], ast.Raise)) if loop else False
-    ok = sorted(pre) == [("length < 3", "ValueError"), ("x64 and length != 4", "ValueError")] and before
+    from csverif.astutil import conjuncts as _cj
+    guards = [(s2.test, raise_class(s2.body[0])) for s2 in f.node.body if isinstance(s2, ast.If) and s2.body and isinstance(s2.body[0], ast.Raise)]
+    g1 = any(rc == "ValueError" and any(isinstance(op, ast.Lt) and dotted(l) == "length" and _c(r) == 3 for l, op, r in compare_parts(t)) for t, rc in guards)
+    g2 = any(rc == "ValueError" and any(dotted(c) == "x64" for c in _cj(t)) and any(isinstance(op, ast.NotEq) and dotted(l) == "length" and _c(r) == 4 for c in _cj(t) for l, op, r in compare_parts(c)) for t, rc in guards)
+    ok = g1 and g2 and len(guards) == 2 and before
     ctx.ob("R4", "DOM", f, "preconditions", ok, f"argument checks {pre} precede the sampling loop={before}")
 
 
